@@ -227,14 +227,25 @@ func c13Timed(c *Ctx, pki *PKI, tm c13Timing, par int, ti int) {
 			det := map[string]any{"timing": tm, "client": kind, "parallel": par}
 			ok := false
 			if kind == "goldap" {
-				lc, err := ldap.DialURL("ldap://" + tap.Addr())
+				raw, err := net.Dial("tcp", tap.Addr())
 				if err != nil {
 					c.Inconclusive("go-ldap dial: " + err.Error())
 					return
 				}
+				lc := ldap.NewConn(raw, false)
+				lc.Start()
 				defer lc.Close()
 				lc.SetTimeout(c13Wait)
-				if err := lc.StartTLS(pki.ClientPlain); err != nil {
+				// go-ldap's handshake has no deadline of its own: bound it by closing the socket
+				stErr := make(chan error, 1)
+				go func() { stErr <- lc.StartTLS(pki.ClientPlain) }()
+				select {
+				case err = <-stErr:
+				case <-time.After(c13Wait):
+					raw.Close()
+					err = fmt.Errorf("no completed handshake within %s (%v)", c13Wait, <-stErr)
+				}
+				if err != nil {
 					c.Violate("a conforming StartTLS session failed", fmt.Sprintf("go-ldap StartTLS with handler delays %v: %v", tm, err), det)
 					return
 				}
